@@ -17,6 +17,7 @@ pub mod c13;
 pub mod c14;
 pub mod fwd;
 pub mod c15;
+pub mod c16;
 pub mod c17;
 pub mod c18;
 pub mod chooser;
@@ -50,6 +51,7 @@ pub fn scenario_for(pid: &str) -> Option<&'static dyn Scenario> {
         "C13" => &c13::C13,
         "C14" => &c14::C14,
         "C15" => &c15::C15,
+        "C16" => &c16::C16,
         "C17" => &c17::C17,
         "C18" => &c18::C18,
         _ => return None,
